@@ -18,7 +18,7 @@ const FILLER: [&str; 14] = [
 
 struct Template { name: &'static str, text: &'static str, msg: &'static str, want: &'static str, last_only: bool }
 
-const TEMPLATES: [Template; 49] = [
+const TEMPLATES: [Template; 55] = [
     Template { name: "unrecognized-ascii", text: "let a = 1 $ 2\n", msg: "Unrecognized token", want: "$", last_only: false },
     Template { name: "unrecognized-nonascii", text: "let a = 1 é 2\n", msg: "Unrecognized token", want: "é", last_only: false },
     Template { name: "unrecognized-nonascii4", text: "let a = 😀\n", msg: "Unrecognized token", want: "😀", last_only: false },
@@ -69,6 +69,15 @@ const TEMPLATES: [Template; 49] = [
     Template { name: "postfix-index-on-paren-call", text: "let px = (5)[0](1)\n", msg: "Interface `Index` is not implemented", want: "(5)[0]", last_only: false },
     Template { name: "postfix-unwrap-on-paren", text: "let pu = (5)!\n", msg: "Interface `Unwrap` is not implemented", want: "5", last_only: false },
     Template { name: "postfix-member-on-paren", text: "let xs9 = [1]\nlet pmm = (xs9).nope(1)\n", msg: "Could not resolve member function", want: "xs9", last_only: false },
+    // ---- D106 (f9af9cf): a label on a qualified variant pattern underlines the qualifier too
+    Template { name: "d106-qualified-variant-pattern", text: "type Cl = Rd | Gn\nlet qr = match 5 {\n  Cl.Rd -> \"é\"\n  _ -> \"x\"\n}\n", msg: "Match expression input has type", want: "Cl.Rd", last_only: false },
+    Template { name: "d106-redundant-qualified", text: "type Cq = Rd | Gn\nlet cq = Cq.Rd\nlet rq = match cq {\n  Cq.Rd -> 1\n  Cq.Rd -> 3\n  _ -> 2\n}\n", msg: "This match expression has redundant cases", want: "match cq {\n  Cq.Rd -> 1\n  Cq.Rd -> 3\n  _ -> 2\n}", last_only: false },
+    // ---- D111 (0832a58): a missing closing token at the end of the file is a diagnostic, placed where
+    //      the closer was expected (the end of input)
+    Template { name: "d111-missing-paren-eof", text: "let x = foo9(1, 2", msg: "Unexpected token", want: "<at-eof>", last_only: true },
+    Template { name: "d111-missing-bracket-eof", text: "let x = [1, 2 // é", msg: "Unexpected token", want: "<at-eof>", last_only: true },
+    Template { name: "d111-missing-paren-newline-eof", text: "let y = (1 + 2\n", msg: "Unexpected token", want: "<at-eof>", last_only: true },
+    Template { name: "d111-missing-brace-eof", text: "fn f9() {\n  1\n", msg: "Unexpected token", want: "<at-eof>", last_only: true },
     Template { name: "unexpected-eof", text: "let a = 1 +", msg: "Unexpected token", want: "<eof>", last_only: true },
 ];
 
@@ -201,8 +210,15 @@ fn main() {
                 let ok = match t.want {
                     "" => !got.is_empty(),                                        // some token of the statement
                     "<eof>" => d.range.end <= j.src.len(),                        // anything within the file
+                    "<at-eof>" => d.range.start == j.src.len() && d.range.end == j.src.len(), // where the closer was expected
                     w => got == w,
                 };
+                if t.name == "d106-redundant-qualified" {
+                    let secs: Vec<&str> = d.secondary.iter().filter(|(f, r)| *f == 0 && range_ok(&j.src, r).is_ok()).map(|(_, r)| &j.src[r.clone()]).collect();
+                    if secs != vec!["Cq.Rd"] {
+                        ctx.spec_fail(format!("{}: the redundant arm's label covers {:?}, expected the whole qualified pattern `Cq.Rd`; source {:?}", t.name, secs, j.src));
+                    }
+                }
                 if !ok {
                     ctx.spec_fail(format!("{}: diagnostic {:?} covers {:?} (range {:?}) but the offending text is {:?}; source {:?}",
                         t.name, d.message, got, d.range, t.want, j.src));
@@ -212,6 +228,14 @@ fn main() {
         if !matched {
             ctx.spec_fail(format!("{}: the expected diagnostic `{}` was not reported at the error site; got {:?}; source {:?}",
                 t.name, t.msg, diags.iter().map(|d| (d.message.clone(), d.range.clone())).collect::<Vec<_>>(), j.src));
+        }
+    }
+    // ---- hard regression probe for D111: a file that only lacks a closing token is REJECTED
+    for src in ["let x = [1, 2", "println(1\n", "let t = (1, 2 // é", "fn f() {\n  1\n", "let x = foo(1, 2"] {
+        ctx.count("probe:D111");
+        match run_program(src).outcome {
+            Outcome::Rejected(_) => {}
+            o => ctx.spec_fail(format!("D111 probe: {src:?} lacks its closing token but was not rejected: {:?}", o.tag())),
         }
     }
     // ---- hard regression probe for D93 (567a3fd): the locals-limit diagnostic of the main program names
